@@ -177,14 +177,14 @@ func runPair(t *testing.T, c Case2) res2 {
 		}
 		w.play(items)
 		w.goTo(end + 2*time.Millisecond)
-		arrA, outA := reference(0, rto, 0, evA)
-		arrB, outB := reference(offB, rto, 0, evB)
+		pA := reference(0, rto, 0, 0, evA)
+		pB := reference(offB, rto, 0, 0, evB)
 		all := w.arrivals()
-		oA := w.checkTx(trA, "", arrA, outA, all)
-		oB := w.checkTx(trB, "", arrB, outB, all)
-		res.WantA, res.WantB, res.GotA, res.GotB = outA, outB, oA, oB
-		if len(all) != len(arrA)+len(arrB) {
-			w.violate("retransmit-schedule:stray-datagram", "server saw %d datagrams, predicted %d+%d", len(all), len(arrA), len(arrB))
+		oA := w.checkTx(trA, "", pA, all)
+		oB := w.checkTx(trB, "", pB, all)
+		res.WantA, res.WantB, res.GotA, res.GotB = pA.outs, pB.outs, oA, oB
+		if len(all) != len(pA.arr)+len(pB.arr) {
+			w.violate("retransmit-schedule:stray-datagram", "server saw %d datagrams, predicted %d+%d", len(all), len(pA.arr), len(pB.arr))
 		}
 		state := w.postCheck([]*txrun{trA, trB}, "late-response-after-"+oA.label()+"+"+oB.label(), "after-"+oA.label()+"+"+oB.label())
 		rel := "none"
@@ -248,6 +248,20 @@ func dupsFor(a, b ans) []string {
 }
 
 func TestC12Concurrent(t *testing.T) {
+	if rep.ReplayPath() != "" {
+		var c Case2
+		loadReplay(&c)
+		res := runPair(t, c)
+		fmt.Printf("case: %v\npredicted: A %v B %v\nobserved:  A %v B %v\n", c, res.WantA, res.WantB, res.GotA, res.GotB)
+		for _, v := range res.viols {
+			fmt.Printf("VIOLATION %s: %s\n", v.sig, v.detail)
+		}
+		if len(res.viols) == 0 {
+			fmt.Println("no violation")
+		}
+
+		return
+	}
 	r := rep.New("C12")
 	defer r.Write()
 	thorough := rep.Thorough()
@@ -296,7 +310,7 @@ func TestC12Concurrent(t *testing.T) {
 					}
 					for _, cl := range closes {
 						c := Case2{RTOms: o.rto, A: o.a, B: o.b, OffB: off, Dup: dup, Order: ord, Close: cl}
-						rep.Current(map[string]any{"part": "concurrent", "case": c, "sig_hint": "c12-concurrent:" + c.String()})
+						rep.Current(map[string]any{"part": "concurrent", "case": c, "sig_hint": "c12-concurrent:case-never-quiesces(lock-held-or-spin)"})
 						res := runPair(t, c)
 						r.Evaluations++
 						classes[res.class]++
